@@ -729,62 +729,64 @@ theorem depositStep (env : Env) (k : PoolKey) (st st' : State) (reqs : List Tx) 
   · cases h
   · cases h
   · next pool' totalLiqs hdep =>
-    obtain ⟨coins, hfold, h2⟩ := Outcome.bind_eq_ok h
-    cases h2
-    have hdl := deposit_le hdep
-    have hfold' := coinFold _ d
-      (fun tx => (if k.left = d then (tx.outputs.headD default).value else 0) +
-                 (if k.right = d then ((tx.outputs.drop 1).headD default).value else 0))
-      (fun _ => 0) st.coins reqs ?_ hh st.coins coins hc (fun _ _ _ => rfl) hfold
-    · obtain ⟨hn', htot⟩ := hfold'
-      refine ⟨⟨hn', pools_nodup_set hp _ _, rfl, rfl, rfl, rfl, rfl⟩, ?_⟩
-      rw [sum_ite_add, sum_map_zero] at htot
-      have hpt := poolsTotal_set hp d k pool'
-      rw [at?_getD_newEmpty] at hpt
-      simp only [pc] at hpt
-      have sL := satSum_le (reqs.map fun tx => (tx.outputs.headD default).value)
-      have sR := satSum_le (reqs.map fun tx => ((tx.outputs.drop 1).headD default).value)
-      unfold cp
-      simp only
-      generalize satSum (reqs.map fun tx => (tx.outputs.headD default).value) = TL at *
-      generalize satSum (reqs.map fun tx => ((tx.outputs.drop 1).headD default).value) = TR at *
-      generalize (reqs.map fun tx => (tx.outputs.headD default).value).sum = SL at *
-      generalize (reqs.map fun tx => ((tx.outputs.drop 1).headD default).value).sum = SR at *
-      generalize (st.pools.get k).getD PoolState.newEmpty = pool at *
-      by_cases e1 : k.left = d
-      · have e2 : ¬ k.right = d := fun e => hlr (e1.trans e.symm)
-        simp only [e1, e2, if_true, if_false] at htot hpt
-        omega
-      · by_cases e2 : k.right = d
-        · simp only [e1, e2, if_true, if_false] at htot hpt
+    split at h
+    · cases h; exact ⟨Good.refl hc hp, Nat.le_refl _⟩
+    · obtain ⟨coins, hfold, h2⟩ := Outcome.bind_eq_ok h
+      cases h2
+      have hdl := deposit_le hdep
+      have hfold' := coinFold _ d
+        (fun tx => (if k.left = d then (tx.outputs.headD default).value else 0) +
+                   (if k.right = d then ((tx.outputs.drop 1).headD default).value else 0))
+        (fun _ => 0) st.coins reqs ?_ hh st.coins coins hc (fun _ _ _ => rfl) hfold
+      · obtain ⟨hn', htot⟩ := hfold'
+        refine ⟨⟨hn', pools_nodup_set hp _ _, rfl, rfl, rfl, rfl, rfl⟩, ?_⟩
+        rw [sum_ite_add, sum_map_zero] at htot
+        have hpt := poolsTotal_set hp d k pool'
+        rw [at?_getD_newEmpty] at hpt
+        simp only [pc] at hpt
+        have sL := satSum_le (reqs.map fun tx => (tx.outputs.headD default).value)
+        have sR := satSum_le (reqs.map fun tx => ((tx.outputs.drop 1).headD default).value)
+        unfold cp
+        simp only
+        generalize satSum (reqs.map fun tx => (tx.outputs.headD default).value) = TL at *
+        generalize satSum (reqs.map fun tx => ((tx.outputs.drop 1).headD default).value) = TR at *
+        generalize (reqs.map fun tx => (tx.outputs.headD default).value).sum = SL at *
+        generalize (reqs.map fun tx => ((tx.outputs.drop 1).headD default).value).sum = SR at *
+        generalize (st.pools.get k).getD PoolState.newEmpty = pool at *
+        by_cases e1 : k.left = d
+        · have e2 : ¬ k.right = d := fun e => hlr (e1.trans e.symm)
+          simp only [e1, e2, if_true, if_false] at htot hpt
           omega
-        · simp only [e1, e2, if_false] at htot hpt
-          omega
-    · intro c tx c' htx hn hsame hf
-      obtain ⟨v, _, hf⟩ := Outcome.bind_eq_ok hf
-      simp only [outCoinID_eq] at hf
-      obtain ⟨c0, c1, hc0, hc1, hv0, hd0, hv1, hd1⟩ := hreq tx htx
-      have hn1 := CoinMap.Nodup_insertCoin hn ⟨tx.hash, 0⟩
-        { coinData := { tx.outputs.headD default with denom := liqTokenDenom env k, value := v },
-          height := st.height } st.tip906
-      refine ⟨CoinMap.Nodup_removeCoin hn1 hf, ?_, ?_⟩
-      · have ht1 := coinsTotal_insertCoin hn d ⟨tx.hash, 0⟩
+        · by_cases e2 : k.right = d
+          · simp only [e1, e2, if_true, if_false] at htot hpt
+            omega
+          · simp only [e1, e2, if_false] at htot hpt
+            omega
+      · intro c tx c' htx hn hsame hf
+        obtain ⟨v, _, hf⟩ := Outcome.bind_eq_ok hf
+        simp only [outCoinID_eq] at hf
+        obtain ⟨c0, c1, hc0, hc1, hv0, hd0, hv1, hd1⟩ := hreq tx htx
+        have hn1 := CoinMap.Nodup_insertCoin hn ⟨tx.hash, 0⟩
           { coinData := { tx.outputs.headD default with denom := liqTokenDenom env k, value := v },
             height := st.height } st.tip906
-        have ht2 := coinsTotal_removeCoin hn1 d hf
-        rw [cwAt_some ((hsame 0).trans hc0)] at ht1
-        have e : (c.insertCoin ⟨tx.hash, 0⟩
-          { coinData := { tx.outputs.headD default with denom := liqTokenDenom env k, value := v },
-            height := st.height } st.tip906).getCoin ⟨tx.hash, 1⟩ = some c1 := by
-          rw [CoinMap.getCoin_insertCoin_ne _ _ _ (by intro e; cases e)]
-          exact (hsame 1).trans hc1
-        rw [cwAt_some e] at ht2
-        have hd' : ¬ liqTokenDenom env k = d := fun e => hd e.symm
-        simp only [cw, hv0, hd0, hv1, hd1, hd', if_false] at ht1 ht2
-        omega
-      · intro id hid
-        rw [CoinMap.getCoin_removeCoin_ne hf (ne_of_txhash_ne 1 hid),
-          CoinMap.getCoin_insertCoin_ne _ _ _ (ne_of_txhash_ne 0 hid)]
+        refine ⟨CoinMap.Nodup_removeCoin hn1 hf, ?_, ?_⟩
+        · have ht1 := coinsTotal_insertCoin hn d ⟨tx.hash, 0⟩
+            { coinData := { tx.outputs.headD default with denom := liqTokenDenom env k, value := v },
+              height := st.height } st.tip906
+          have ht2 := coinsTotal_removeCoin hn1 d hf
+          rw [cwAt_some ((hsame 0).trans hc0)] at ht1
+          have e : (c.insertCoin ⟨tx.hash, 0⟩
+            { coinData := { tx.outputs.headD default with denom := liqTokenDenom env k, value := v },
+              height := st.height } st.tip906).getCoin ⟨tx.hash, 1⟩ = some c1 := by
+            rw [CoinMap.getCoin_insertCoin_ne _ _ _ (by intro e; cases e)]
+            exact (hsame 1).trans hc1
+          rw [cwAt_some e] at ht2
+          have hd' : ¬ liqTokenDenom env k = d := fun e => hd e.symm
+          simp only [cw, hv0, hd0, hv1, hd1, hd', if_false] at ht1 ht2
+          omega
+        · intro id hid
+          rw [CoinMap.getCoin_removeCoin_ne hf (ne_of_txhash_ne 1 hid),
+            CoinMap.getCoin_insertCoin_ne _ _ _ (ne_of_txhash_ne 0 hid)]
 
 theorem withdrawStep (ld : Denom) (k : PoolKey) (st st' : State) (reqs : List Tx) (d : Denom)
     (h : processWithdrawalsForPool k st reqs = .ok st')
